@@ -3,8 +3,8 @@ from .. import b58ref
 from ..tlc import MachineryError
 
 CFG = """SPECIFICATION Spec
-CONSTANTS Firsts = {0, 1, 2, 3, 4, 255}
- Lasts = {0, 1, 255}
+CONSTANTS Firsts = {%s}
+ Lasts = {%s}
  Fillers = {%s}
  CrossReads = TRUE
 INVARIANT RoundTrip
@@ -21,10 +21,10 @@ PREFIX = {
     ('addr', 'KT1'): '025a79', ('addr', 'sr1'): '067c75', ('addr', 'txr1'): '0180781f',
     ('key', 'ed'): '0d0f25d9', ('key', 'sp'): '03fee256', ('key', 'p2'): '03b28b7f', ('key', 'bls'): '069587cc',
     ('sig', 'ed'): '09f5cd8612', ('sig', 'sp'): '0d7365133f', ('sig', 'p2'): '36f02c34', ('sig', 'gen'): '04822b', ('sig', 'bls'): '28ab40cf',
-    ('chain', None): '575200',
+    ('chain', 'net'): '575200',
 }
 HUMAN = {('key', 'ed'): 'edpk', ('key', 'sp'): 'sppk', ('key', 'p2'): 'p2pk', ('key', 'bls'): 'BLpk',
-         ('sig', 'ed'): 'edsig', ('sig', 'sp'): 'spsig', ('sig', 'p2'): 'p2sig', ('sig', 'gen'): 'sig', ('sig', 'bls'): 'BLsig', ('chain', None): 'Net'}
+         ('sig', 'ed'): 'edsig', ('sig', 'sp'): 'spsig', ('sig', 'p2'): 'p2sig', ('sig', 'gen'): 'sig', ('sig', 'bls'): 'BLsig', ('chain', 'net'): 'Net'}
 
 
 def concretize(atom):
@@ -36,9 +36,6 @@ def concretize(atom):
         human = kind
         if tag == 'addr' and atom[3]:
             s += '%' + bytes(atom[3]).decode()
-    elif tag == 'chain':
-        s = b58ref.b58check(bytes.fromhex(PREFIX[('chain', None)]), bytes(atom[1]))
-        human = 'Net'
     else:
         s = b58ref.b58check(bytes.fromhex(PREFIX[(tag, atom[1])]), bytes(atom[2]))
         human = HUMAN[(tag, atom[1])]
@@ -47,7 +44,16 @@ def concretize(atom):
     return s
 
 
+_types = {}
+
+
 def mtype(name):
+    if name not in _types:
+        _types[name] = _mtype(name)
+    return _types[name]
+
+
+def _mtype(name):
     from pytezos.michelson.types.base import MichelsonType
     import pytezos.michelson.types  # noqa: registers the type classes
     if name == 'contract':
@@ -89,8 +95,7 @@ def blind(hexbytes):
 def klass(atom):
     """Input class for signatures: kind and the boundary class of the payload."""
     tag = atom[0]
-    p = atom[1] if tag == 'chain' else atom[2]
-    kind = '' if tag == 'chain' else atom[1]
+    p, kind = atom[2], atom[1]
     c = '%s:%s:%s' % (kind, 'first00-03' if p[0] <= 3 else 'firstOther', 'last00' if p[-1] == 0 else 'lastOther')
     if tag == 'addr':
         ep = bytes(atom[3]).decode()
@@ -163,15 +168,17 @@ def canon(atom):
 
 def run(ctx):
     fillers = [119] if ctx.quick else [0, 119, 255]
-    ctx.rule = ('atoms = 7 address kinds x 20-byte payloads (first byte in {00,01,02,03,04,ff}, last byte in {00,01,ff}, filler %s) x entrypoints {none, default, a, 31 chars}; '
+    firsts = [0, 1, 2, 3, 4, 255] if ctx.quick else [0, 1, 2, 3, 4, 5, 127, 128, 254, 255]
+    lasts = [0, 1, 255] if ctx.quick else [0, 1, 2, 127, 128, 255]
+    ctx.rule = ('atoms = 7 address kinds x 20-byte payloads (first byte in %s, last byte in %s, filler %s) x entrypoints {none, default, a, 31 chars}; '
                 'key hashes tz1-tz4, keys of 4 curves, signatures of 5 kinds, chain ids over the same payload classes; Leg A: TLC forges and reads back every atom with the '
                 'typed reader, the length-only reader and the reader of the neighbouring type; Leg B: every behaviour is replayed through the Michelson type classes '
-                '(readable -> optimized must be the model bytes; optimized -> readable must be the model value) and blind_unpack; non-trivial = every comparison' % fillers)
+                '(readable -> optimized must be the model bytes; optimized -> readable must be the model value) and blind_unpack; non-trivial = every comparison' % (firsts, lasts, fillers))
     ctx.assumptions = ['atoms are made concrete with an independent Base58Check encoder and the prefix bytes of the Tezos reference (not pytezos\' table)',
                        'a 64-byte signature read back is the generic signature with the same bytes (the optimized form carries no curve); "default" is no entrypoint',
                        'txr1 is observed through the tx_rollup_l2_address type only; blind_unpack only where the byte length determines the type',
                        'reading a form with the reader of another type is only required not to return another kind or payload']
-    r = ctx.tlc('DomainBin', CFG % ', '.join(map(str, fillers)), timeout=900)
+    r = ctx.tlc('DomainBin', CFG % tuple(', '.join(map(str, x)) for x in (firsts, lasts, fillers)), timeout=900)
     ctx.require_no_violation(r, 'DomainBin')
     ctx.require_coverage(r, ['DoForge', 'ByLength', 'ByTag'])
     outs = [v for v in r.printed if v[0] == 'OUT']
@@ -186,7 +193,7 @@ def run(ctx):
         if ok and atom[0] in ('addr', 'kh') and atom[2][0] <= 3 and atom[2][-1] == 0 and reader != 'blind':
             ctx.sample({'atom': atom, 'reader': reader, 'bytes': bytes(byts).hex(), 'readable': concretize(atom)}, limit=4)
     n_atoms = len({a for a, _ in seen})
-    expect = len(fillers) * 18 * (7 * 4 + 4 + 4 + 5 + 1)
+    expect = len(fillers) * len(firsts) * len(lasts) * (7 * 4 + 4 + 4 + 5 + 1)
     if n_atoms != expect:
         raise MachineryError('TLC exported %d atoms, expected %d' % (n_atoms, expect))
     ctx.exhaustive = True
@@ -213,6 +220,6 @@ META = {
              '(from_micheline_value, to_micheline_value optimized and readable) and blind_unpack, with atoms made concrete by an independent Base58Check encoder.'),
     'design_ref': 'DESIGN.md section 5 C10, section 3.4',
     'note': ('Trusted: concretisation (own base58check + reference prefix constants), comparison of Micheline literals. Exhaustive over the boundary universe '
-             '(756 atoms per filler byte; fillers {77} quick, {00,77,ff} thorough). Payload bytes between first and last are one repeated filler.'),
+             '(quick: first byte 00..04/ff, last byte 00/01/ff, filler 77 = 756 atoms; thorough: 10 x 6 boundary bytes, fillers 00/77/ff = 7560 atoms). Payload bytes between first and last are one repeated filler.'),
     'technique': 'TLA+ spec + TLC exhaustive model checking; spec-behaviour replay into the Michelson domain types and blind_unpack',
 }
